@@ -80,6 +80,7 @@ class Target:
         self.nan_above = nan_above
         self.calls = []          # ("prior"|"lik", n_points, prior_attached_ok)
         self.fail_at = None      # raise at the k-th call (0-based over both callables)
+        self.answers_in = None   # None: answer in the samples' namespace and dtype; "float32"/"float64": NumPy arrays of that width
         self.ncalls = 0
 
     def _x(self, samples):
@@ -119,6 +120,8 @@ class Target:
         self._tick()
         x = self._x(samples)
         self.calls.append(("prior", len(x), None))
+        if self.answers_in is not None:       # a user model that answers in its own precision (NumPy), whatever was requested
+            return np.asarray(self.Pi(x), dtype=self.answers_in)
         return samples.xp.asarray(self.Pi(x), dtype=samples.dtype) if hasattr(samples, "xp") else self.Pi(x)
 
     def log_likelihood(self, samples):
@@ -128,6 +131,8 @@ class Target:
         ok = lp is not None and np.allclose(np.asarray(nsutil.to_list(lp), dtype=float), self.Pi(x), rtol=1e-5, atol=1e-5, equal_nan=True) \
             and len(np.atleast_1d(np.asarray(nsutil.to_list(lp)))) == len(x)
         self.calls.append(("lik", len(x), bool(ok)))
+        if self.answers_in is not None:
+            return np.asarray(self.L(x), dtype=self.answers_in)
         return samples.xp.asarray(self.L(x), dtype=samples.dtype)
 
 
